@@ -68,7 +68,12 @@ func (c *Collection) Snapshot(dst io.Writer) error {
 	defer recorder.Close()
 	defer c.recorderClose()
 	verifYield("s:opened")
-	if _, err := c.writeState(s2.NewWriter(dst)); err != nil {
+	compressor := s2.NewWriter(dst)
+	_, err = c.writeState(compressor)
+	if cerr := compressor.Close(); err == nil { // stops the compressor's goroutine, releases its buffers
+		err = cerr
+	}
+	if err != nil {
 		return err
 	}
 
